@@ -74,3 +74,15 @@ CLAIMS["C04"] = dict(
     note="Trusted: typed AST/SSA of pkg/core/hnsw; arithmetic is followed only through +/- of the batch size and constants.",
     technique="static analysis: allocation-convention agreement, paired-store and guard-dominates-effect checks over AST/SSA",
 )
+CLAIMS["C09"] = dict(
+    ref="DESIGN.md §4 C09",
+    text="Decides only the bookkeeping that keeps corpus statistics CURRENT and the shape of fusion: DocLengths, TotalDocs, TotalDocLength and AvgFieldLength are updated together in every maintenance site, removal is conditional on the document having been counted, and stripping a node's postings also removes its statistics (GRD-stats); the BM25 constants are k1=1.2, b=0.75 and the scorer uses them with the current statistics (TBL-bm25); alpha is clamped before use, distances are normalised before fusion, and no candidate list is cut to k before the fused scores are sorted (GRD-fusion, GRD-order); live and restore indexers tokenise with the same analyser choice (SIB-1). The formula values, ordering and normalisation arithmetic are NOT decided.",
+    note="Trusted: typed AST of pkg/core maintenance functions; PostingList-valued map writes identify posting maintenance.",
+    technique="static analysis: co-updated field-group and constant-table checks over the typed AST; SSA path queries for fusion ordering",
+)
+CLAIMS["C15"] = dict(
+    ref="DESIGN.md §4 C15",
+    text="Decides the structural part of the decay laws: every declared decay model has a dispatch arm to its own helper, unknown names fall back to exponential, and the unit cases (half-life <= 0, age <= 0 give 1) dominate the dispatch (TBL-models); both decay application sites consult the same six metadata keys, accept the pin flag as bool and string, and multiply the score by the factor (SIB-3); VReinforce stores count+1 and now (GRD-reinforce) inside one per-node lock hold (GRD-rmw). Bounds, monotonicity and half-life values of the real-valued functions are NOT decided.",
+    note="Trusted: typed AST of search_utils.go / ops.go; constant evaluation via go/constant.",
+    technique="static analysis: exhaustiveness of constant tables, sibling key-set agreement, guard-dominates-dispatch over SSA",
+)
